@@ -56,12 +56,17 @@ void hook(const char* op, const char* path) {
     }
 }
 
+// files that belong to a chunk: "<hex id>.chunk", and any other name that carries a chunk's hex id (e.g. a staging
+// file "<hex id>.chunk.tmp" of an interrupted store) -- "an interrupted store or wipe never leaves a file"
 std::vector<std::string> chunk_files(const std::string& dir) {
     std::vector<std::string> out;
     if (DIR* d = ::opendir(dir.c_str())) {
         while (auto* e = ::readdir(d)) {
             std::string n = e->d_name;
-            if (n.size() > 6 && n.substr(n.size() - 6) == ".chunk") out.push_back(n);
+            if (n == "." || n == "..") continue;
+            bool is_chunk = n.size() > 6 && n.substr(n.size() - 6) == ".chunk";
+            for (int k = 0; k < 3 && !is_chunk; ++k) is_chunk = n.find(chunk_id_to_string(cid(k))) != std::string::npos;
+            if (is_chunk) out.push_back(n);
         }
         ::closedir(d);
     }
